@@ -131,6 +131,25 @@ def check_vector(P, ver, s, rng, n_seq):
                 seq.append("mutate:" + how)
                 obs.call(mutate, d, how)
                 continue
+            if r < 0.23:
+                # other objects are SERIALISED in between: an equal vector in another spelling,
+                # and now and then a few hundred unrelated ones (bounded caches get recycled)
+                seq.append("serialise-others")
+                fs = T.parse(ver, s)[1]
+                rng.shuffle(fs)
+                ok_, o_ = obs.call(L.CLS[ver], T.spell(T.split_prefix(ver, s)[0], fs))
+                if ok_:
+                    for so in (False, True):
+                        for mi in (False, True):
+                            obs.call(o_.as_json, sort=so, minimal=mi)
+                    obs.call(lambda: (o_.clean_vector(), hash(o_), o_.rh_vector()))
+                if rng.random() < 0.03:
+                    for _k in range(150):
+                        ok_, o_ = obs.call(L.CLS[ver], V.rand_vector(rng, ver)[2])
+                        if ok_:
+                            obs.call(o_.as_json)
+                            obs.call(o_.as_json, sort=True, minimal=True)
+                continue
             if r < 0.25:
                 # construct (and reject) other objects in between
                 seq.append("construct-others")
@@ -203,6 +222,19 @@ def replay(R, w):
                 mutate(held[-1], n.split(":")[1])
             continue
         if n == "construct-others":
+            continue
+        if n == "serialise-others":
+            fs = T.parse(ver, s)[1][::-1]
+            ok_, o_ = obs.call(L.CLS[ver], T.spell(T.split_prefix(ver, s)[0], fs))
+            if ok_:
+                for so in (False, True):
+                    for mi in (False, True):
+                        obs.call(o_.as_json, sort=so, minimal=mi)
+            for _k in range(150):
+                ok_, o_ = obs.call(L.CLS[ver], V.rand_vector(rng, ver)[2])
+                if ok_:
+                    obs.call(o_.as_json)
+                    obs.call(o_.as_json, sort=True, minimal=True)
             continue
         if n.startswith("as_json"):
             held.append(o.as_json(sort="sort" in n, minimal="minimal" in n))
